@@ -36,6 +36,7 @@ Print Assumptions C04_window.
    placeholder = g1 . g2 *)
 Theorem C04_reports : forall c sh s m, cpat c = shape_pat sh -> typing c s true = Valid m ->
   exists pc rest, window s (mstart m) = pieces_text pc ++ rest /\ pieces_ok sh pc /\ mstart m < length s /\
+    mend m = length (pieces_text pc) + mstart m /\
     observe c s =
       (true,
        Some (role_pick (crole c) (t1 pc) (t3 pc)),
